@@ -53,6 +53,10 @@ class FsMixin:
         d, n = self.as_path(st, args[0])
         return SVal(KName, [n])
 
+    def b_os_path_dirname(self, st, fr, args, kw):
+        d, n = self.as_path(st, args[0])
+        return SVal(KName, [d])
+
     def b_os_path_relpath(self, st, fr, args, kw):
         return args[0]          # denotes the same file when resolved from `start`
 
